@@ -1,6 +1,7 @@
 CHECK = {
         "obligations": ["C09.c09_exact", "C09.c09_complete_redirects", "C09.c09_close_only_iff_ran_out", "C09.c09_prefix_stable",
-                        "C09.c09_silent", "C09.c09_total", "C09.readFirstPacket_flat", "C09.wsScan_flat",
+                        "C09.c09_silent", "C09.c09_total", "C09.c09_target_unavailable", "C09.c09_unavailable_pinned_witness",
+                        "C09.c09_reply_partial", "C09.c09_reply_witness", "C09.gen_goweb_errors", "FPS.relay_closes", "FPS.live_reply", "C09.readFirstPacket_flat", "C09.wsScan_flat",
                         "C09.gen_buf", "C09.gen_first", "C09.gen_bytes", "C09.gen_hdr", "C09.gen_len", "C09.gen_oversize", "C09.gen_body",
                         "C09.gen_crl_loop", "C09.gen_crl", "C09.gen_term", "C09.gen_redir", "C09.gen_shape", "C09.gen_actions",
                         "C09.gen_goweb", "C09.gen_recover",
@@ -13,10 +14,11 @@ CHECK = {
                 "over-long lines and header blocks incl. a terminator ending at byte 2999/3000/3001; valid Cloak hellos (TLS x3 browsers, WebSocket) with unknown "
                 "proxy method / unauthorised UID and their replays. readFirstPacket: every 1-cut of inputs <= 90 bytes, head/tail/random 1-cuts of longer ones, "
                 "random multi-cuts. dispatchConnection in a synctest bubble with a scripted peer and RedirDialer target: 4+ segmentations x 2 (thorough 6) "
-                "target scripts (t / t,p,t / p,t,te,p / t,pe,t / te / none), peer ending by EOF or by the virtual 15 s deadline, chunks fed up-front or "
-                "trickled to quiescence. distinct by (input hash, cut positions, script)",
+                "target scripts (t / t,p,t / p,t,te,p / t,pe,t / te / pe,t,te / none), peer ending by EOF or by the virtual 15 s deadline, chunks fed up-front or "
+                "trickled to quiescence; one input per first-packet class (and the refused genuine hellos) with a RedirDialer whose Dial fails / whose conn fails its first Write. distinct by (input hash, cut positions, script)",
         "assumptions": ["net/http.ReadRequest, base64, AES-GCM and X25519 of the Go standard library do not panic (exercised, not modelled)",
-                        "common.Copy goroutines: modelled as 'forward each chunk while both ends are open; the first EOF ends both' with every event processed to quiescence",
+                        "common.Copy goroutines: modelled as 'forward each chunk while both ends are open; the first EOF ends both and closes both conns' with every event processed to quiescence",
+                        "a failed first write to the redirect target delivers nothing to it (the scripted conn fails the call outright)",
                         "the 15 s read deadline is honoured by the peer conn (virtual time in the harness)",
                         "what AuthFirstPacket/MakeObfuscator/ProxyBook/user lookup conclude is an input (Verdict) of the model; that only valid fresh hellos of authorised users escape the rejecting verdicts is C07/C08",
                         "c09_total: parser totality is tied through the recover() guards (T1) and exercised by mutated hellos (T2); the parsers themselves are not modelled here (C06's parser model)"],
